@@ -9,7 +9,7 @@ COMMON_TRUST = [
 
 PROPS = {
     'C02': dict(
-        units=['encode', 'decode', 'status', 'reqresp', 'metadata'], level='proof',
+        units=['encode', 'decode', 'status', 'reqresp', 'metadata', 'clientglue'], level='proof',
         witness=[dict(append_to='tonic/src/status.rs', module='replay/status_witness.rs', crate='tonic', filter='verif_witness_status', features=['--features', 'gzip,deflate,zstd']), dict(append_to='tonic/src/codec/decode.rs', module='replay/decode_witness.rs', crate='tonic', filter='verif_witness_decode', features=['--features', 'gzip,deflate,zstd'])],
         not_covered=[
             'PARTIAL: decided here is the hand-off of status / trailers / metadata at both ends - server: EncodeBody turns the handler status (or OK) into exactly one trailers block written(st) after every message frame (enc_step); client: Streaming yields the buffered messages first (N1), then the status read from the trailers (response: read(trailers, st)), exactly once (F3); Status write/read round trip (lemma_status_roundtrip); Request/Response head construction',
@@ -58,7 +58,7 @@ PROPS = {
         ]),
     'C05': dict(
         witness=[dict(append_to='tonic/src/codec/compression.rs', module='replay/compression_witness.rs', crate='tonic', filter='verif_witness_compression', features=['--features', 'gzip,deflate,zstd']), dict(append_to='tonic/src/codec/decode.rs', module='replay/decode_witness.rs', crate='tonic', filter='verif_witness_decode', features=['--features', 'gzip,deflate,zstd'])],
-        units=['compression', 'decode', 'encode'], kani=['cfg_is_enabled', 'cfg_is_empty', 'cfg_enable', 'cfg_pop'], level='proof',
+        units=['compression', 'decode', 'encode', 'clientglue'], kani=['cfg_is_enabled', 'cfg_is_empty', 'cfg_enable', 'cfg_pop'], level='proof',
         not_covered=[
             'EnabledCompressionEncodings::{enable,pop,is_enabled,is_empty} use iterator adapters Verus rejects: their contracts are discharged by the complete Kani harnesses kani::cfg_* on the real code (all slot states x all encodings) and linked in the Verus units as callee contracts; into_accept_encoding_header_value (intractable for CBMC: 46 GB) is proved in the Verus unit with `self.inner.into_iter().flatten()` routed through an assumed std contract (A-core-21: the Some entries in slot order)',
             'server/client plumbing that passes the right one of the two configured sets (send vs accept) into these functions (server::Grpc, client::Grpc glue) is not yet under contract',
